@@ -45,6 +45,12 @@ def step (t : DTree) (line : String) : List String :=
       match ind.toNat? with
       | some i => ["X " ++ String.intercalate " " ((DTree.textLines i 0 t).map (fun (n, nm) => s!"{n}:{encName nm}"))]
       | none => ["bad-op"]
+  | ["dotfile", vis, col] =>     -- render_dot_tree: the graph written to the .dot file (node and edge counts)
+      match vis.toNat? with
+      | some v =>
+          let g := DTree.dotTree v (col = "1") t
+          [s!"NC {g.used.length}", s!"EC {g.edges.length}"]
+      | none => ["bad-op"]
   | ["dot", vis, col] =>
       match vis.toNat? with
       | some v =>
